@@ -1,4 +1,5 @@
 import Lemmas.U128Div
+import Lemmas.U128DivBin
 import Lemmas.I128Basic
 import Lemmas.I128Div
 /-! # C01 — 128-bit integer arithmetic, ordering and bit operations are ℤ mod 2^128
@@ -9,10 +10,11 @@ the same definitions the driver `drv_c01` runs against the Go code on every chec
 Every theorem quantifies over all operands (no size bound), all shift counts, all bit indexes.
 
 Division: the dispatch (÷0 panic, ÷1, 64-bit fast path, power of two, `u < n`, `u = n`, selection of a kernel) is
-proved outright (`divMod_fast`, `divMod_panic_iff`, `div_eq_fst_divMod`, …).  The three kernels (`divmod128by64`,
-the estimate branch of `divmod128by128`, `divmod128bin`) enter `divMod_spec_partial` as the named contracts
-`U128.Divlu64Spec`, `U128.Div128Spec`, `U128.DivBinSpec`; on those paths the tie to the implementation is the
-correspondence run (every path and correction count is hit on every run, see the tag histogram). -/
+proved outright (`divMod_spec_fast`, `no_other_panic`, `div_eq_fst_divMod`, …), and so is the binary kernel
+`divmod128bin` (`divmod128bin_spec`, `divMod_spec_bin`).  The two Knuth kernels (`divmod128by64`, the estimate branch of
+`divmod128by128`) enter `divMod_spec_partial` as the named contracts `U128.Divlu64Spec`, `U128.Div128Spec`; on those
+paths the tie to the implementation is the correspondence run (every path and correction count is hit on every run,
+see the tag histogram). -/
 namespace C01
 open U128 (W Res ofW)
 
@@ -183,18 +185,28 @@ theorem divMod_spec_fast (a n : U128) (h : n.toNat ≠ 0)
     ∃ q r, a.divMod n = .ok (q, r) ∧ q.toNat = a.toNat / n.toNat ∧ r.toNat = a.toNat % n.toNat :=
   U128.divMod_fast a n h hp
 
-/-- `divMod_spec` in general, with the contracts of the three kernels as explicit named hypotheses (the dispatch, the
-    reduction of the word-divisor case to `divmod128by64` with the high/low split, and all fast paths are proved) -/
-theorem divMod_spec_partial (h64 : U128.Divlu64Spec) (h128 : U128.Div128Spec) (hbin : U128.DivBinSpec) :
-    divMod_spec_Statement :=
-  fun a n h => U128.divMod_correct h64 h128 hbin a n h
+/-- the kernel `divmod128bin` (shift-and-subtract) meets its contract: proved, no hypothesis -/
+theorem divmod128bin_spec : U128.DivBinSpec := U128.divBinSpec
+
+/-- `divMod_spec` on the binary path (leading-zero gap of the operands not above `divBinaryShiftThreshold`), with no
+    hypothesis -/
+theorem divMod_spec_bin (a n : U128) (h : n.toNat ≠ 0)
+    (hgap : ¬ n.leadingZeros - a.leadingZeros > U128.threshold) :
+    ∃ q r, a.divMod n = .ok (q, r) ∧ q.toNat = a.toNat / n.toNat ∧ r.toNat = a.toNat % n.toNat :=
+  U128.divMod_bin a n h hgap
+
+/-- `divMod_spec` in general, with the contracts of the two Knuth kernels as explicit named hypotheses (the dispatch,
+    the binary kernel, the reduction of the word-divisor case to `divmod128by64` with the high/low split, and all fast
+    paths are proved) -/
+theorem divMod_spec_partial (h64 : U128.Divlu64Spec) (h128 : U128.Div128Spec) : divMod_spec_Statement :=
+  fun a n h => U128.divMod_correct h64 h128 U128.divBinSpec a n h
 
 /-- quotient·divisor + remainder reproduces the dividend, and the remainder is smaller than the divisor (from the
     kernel contracts) -/
-theorem div_mul_add_mod_partial (h64 : U128.Divlu64Spec) (h128 : U128.Div128Spec) (hbin : U128.DivBinSpec)
+theorem div_mul_add_mod_partial (h64 : U128.Divlu64Spec) (h128 : U128.Div128Spec)
     (a n : U128) (h : n.toNat ≠ 0) :
     ∃ q r, a.divMod n = .ok (q, r) ∧ q.toNat * n.toNat + r.toNat = a.toNat ∧ r.toNat < n.toNat := by
-  obtain ⟨q, r, e, hq, hr⟩ := U128.divMod_correct h64 h128 hbin a n h
+  obtain ⟨q, r, e, hq, hr⟩ := U128.divMod_correct h64 h128 U128.divBinSpec a n h
   refine ⟨q, r, e, ?_, ?_⟩
   · rw [hq, hr, Nat.mul_comm]; exact Nat.div_add_mod _ _
   · rw [hr]; exact Nat.mod_lt _ (by omega)
@@ -300,15 +312,14 @@ def idivMod_spec_Statement : Prop := ∀ (a n : I128), n.toInt ≠ 0 →
 
 /-- `Int128.DivMod` from the unsigned specification (magnitudes, sign fix-up and the `MinInt128` wrap are proved; the
     hypotheses are the three kernel contracts of the unsigned division) -/
-theorem idivMod_spec_partial (h64 : U128.Divlu64Spec) (h128 : U128.Div128Spec) (hbin : U128.DivBinSpec) :
-    idivMod_spec_Statement :=
-  fun a n h => I128.divMod_correct (fun u m hm => U128.divMod_correct h64 h128 hbin u m hm) a n h
+theorem idivMod_spec_partial (h64 : U128.Divlu64Spec) (h128 : U128.Div128Spec) : idivMod_spec_Statement :=
+  fun a n h => I128.divMod_correct (fun u m hm => U128.divMod_correct h64 h128 U128.divBinSpec u m hm) a n h
 
 /-- quotient·divisor + remainder reproduces the dividend (mod 2^128; exactly, unless the quotient wrapped) -/
-theorem idiv_mul_add_mod_partial (h64 : U128.Divlu64Spec) (h128 : U128.Div128Spec) (hbin : U128.DivBinSpec)
+theorem idiv_mul_add_mod_partial (h64 : U128.Divlu64Spec) (h128 : U128.Div128Spec)
     (a n : I128) (h : n.toInt ≠ 0) :
     ∃ q r, a.divMod n = .ok (q, r) ∧ I128.wrap128 (q.toInt * n.toInt + r.toInt) = a.toInt := by
-  obtain ⟨q, r, e, hq, hr⟩ := idivMod_spec_partial h64 h128 hbin a n h
+  obtain ⟨q, r, e, hq, hr⟩ := idivMod_spec_partial h64 h128 a n h
   refine ⟨q, r, e, ?_⟩
   have hra := I128.toInt_range a
   have key := Int.tdiv_mul_add_tmod a.toInt n.toInt
